@@ -41,6 +41,15 @@ def UB.name : UB → String
   | .nullDeref => "nullDeref" | .divZero => "divZero" | .castRange => "castRange"
   | .shiftNeg => "shiftNeg" | .fuel => "fuel"
 
+/-- output values of an API call, as the trace shows them -/
+inductive Out
+  | none
+  | nat (n : Nat)
+  | int (i : Int)
+  | bits (u : UInt32)
+  | byte (b : UInt8)
+  deriving DecidableEq, Repr, Inhabited
+
 /-- big-endian bytes → `uint32_t`, as the SPI backends return multi-byte register reads -/
 def be32 : List UInt8 → UInt32
   | [] => 0
